@@ -140,7 +140,7 @@ func checkGuards(r *Reporter, p *Prog, rule string, rows []GuardRow) {
 				}
 				for i := range rows {
 					row := &rows[i]
-					if row.Pkg == pkg && row.Type == recvT {
+					if row.Pkg == pkg && (row.Type == recvT || (row.ViaRecvType != "" && row.ViaRecvType == recvT)) {
 						if m, ok := chOf(row, fd.Name.Name); ok && recvPath != "" {
 							entry = entry.with(recvPath+"."+row.Mutex, m)
 						}
@@ -246,7 +246,7 @@ func checkGuards(r *Reporter, p *Prog, rule string, rows []GuardRow) {
 							if need > fnN.mode {
 								fnN.mode = need
 							}
-							if recvPath == "" || want != recvPath+"."+gf.row.Mutex || recvT != gf.row.Type || fnN.row != gf.row {
+							if recvPath == "" || want != recvPath+"."+gf.row.Mutex || (recvT != gf.row.Type && recvT != gf.row.ViaRecvType) || fnN.row.Mutex != gf.row.Mutex || fnN.row.Pkg != gf.row.Pkg {
 								fnN.recvOnly = false
 							}
 						}
@@ -283,7 +283,7 @@ func checkGuards(r *Reporter, p *Prog, rule string, rows []GuardRow) {
 						}
 						for i := range rows {
 							row := &rows[i]
-							if fullPath(row.Pkg) != rt.Obj().Pkg().Path() || row.Type != rt.Obj().Name() {
+							if fullPath(row.Pkg) != rt.Obj().Pkg().Path() || (row.Type != rt.Obj().Name() && row.ViaRecvType != rt.Obj().Name()) {
 								continue
 							}
 							need, ok := chOf(row, fn.Name())
@@ -333,16 +333,24 @@ func checkGuards(r *Reporter, p *Prog, rule string, rows []GuardRow) {
 			if fd == nil || !fnN.recvOnly || fd.Name.IsExported() || fd.Recv == nil {
 				continue
 			}
-			mk := fnN.row.Type + "." + fd.Name.Name
+			mk := recvTypeName(fd) + "." + fd.Name.Name
 			if _, tabled := fnN.row.CH[fd.Name.Name]; tabled {
 				continue
 			}
 			if escapes[mk] != "" || callSites[mk] == 0 {
 				continue
 			}
-			if cur, ok := inferred[fnN.row][fd.Name.Name]; !ok || cur < fnN.mode {
-				inferred[fnN.row][fd.Name.Name] = fnN.mode
-				changed = true
+			// the helper holds for every row of this receiver type that is guarded by the same mutex
+			rt := recvTypeName(fd)
+			for i := range rows {
+				row := &rows[i]
+				if row.Pkg != fnN.row.Pkg || row.Mutex != fnN.row.Mutex || (row.Type != rt && row.ViaRecvType != rt) {
+					continue
+				}
+				if cur, ok := inferred[row][fd.Name.Name]; !ok || cur < fnN.mode {
+					inferred[row][fd.Name.Name] = fnN.mode
+					changed = true
+				}
 			}
 		}
 		if !changed || round > 20 {
